@@ -123,6 +123,12 @@ def runner(rep, tier, seed, replay):
         line = '%s ; vpa Q%d "$A"' % (pre_cmd, k)
         jobs.append({"entry": "c", "text": line, "timeout": 6, "want_files": False})
         meta.append(("qassign", "quoted-assignment", line, ["Q%d" % k], [], [val], {"t": pre_cmd, "feat": {"quoted_assignment": True}}, False, None))
+    # ---- the home directory is the CURRENT value of HOME
+    for k, (pre_cmd, exp) in enumerate((("vmk T0 0 ~ ; export HOME=/vhome/o2", ["/vhome/o2", "/vhome/o2/x"]), ("export HOME=/vhome/o3", ["/vhome/o3", "/vhome/o3/x"]),
+                                        ("vmk T0 0 ~ ; HOME=/vhome/o4", ["/vhome/o4", "/vhome/o4/x"]))):
+        line = "%s ; vpa H%d ~ ~/x" % (pre_cmd, k)
+        jobs.append({"entry": "c", "text": line, "timeout": 6, "want_files": False, "env": {"HOME": "/vhome/u"}})
+        meta.append(("tildehome", "home-changed", line, ["H%d" % k], [], exp, {"t": pre_cmd, "feat": {"home_changed": True}}, False, None))
     # ---- a pattern whose directory part comes from a variable and holds characters that shape other expansions (, { } `): the
     # file system is asked with the real characters
     for k, dn in enumerate(("a,b", "c{d", "e}f", "g`h", "i,j{k}")):
